@@ -76,7 +76,7 @@ fn default_runs(p: P, thorough: bool) -> u64 {
         P::C01 => (36_000, 400_000),
         P::C02 => (20_000, 300_000),
         P::C03 => (8_000, 120_000),
-        P::C04 => (100_000, 1_500_000),
+        P::C04 => (100_000, 600_000),
         P::C05 => (25_000, 500_000),
         P::C06 => (3_000, 40_000),
         P::C07 => (40_000, 600_000),
